@@ -129,27 +129,35 @@ func NewResettableKeystore(d ds.Batching, opts ...ResettableKeystoreOption) (*Re
   modifies *
   ensures [error-starts-nothing] imp(result1 != nil, !$spawned)
   ensures [success-starts-the-worker] imp(result1 == nil, $spawned)
-  ghost at go(worker): $spawned = true
+  # the worker is started with both signal channels made
+  ghost at go(worker): $spawned = true; assert(rks.close != nil && rks.done != nil)
+  # WithDatastoreFactory (the only writer of these two fields) rejects a nil create or destroy: ASSUMED here
+  ghost at call(getResettableOpts): assume(rcfg.createDs == nil || rcfg.destroyDs != nil)
 
 func (s *keystore) worker()
   props C14
+  requires s.close != nil && s.done != nil
   modifies *
   ensures [exit-only-on-close-signal] tagged("recv:s.close")
   ensures [exit-is-announced] tagged("closed:s.done")
 
 func (s *ResettableKeystore) worker()
   props C14
+  requires s.close != nil && s.done != nil
   modifies *
   ensures [exit-only-on-close-signal] tagged("recv:s.close")
   ensures [exit-is-announced] tagged("closed:s.done")
 
 func (s *keystore) Close() error
   props C14
+  # (an instance built by the constructor: both channels are made there)
+  requires s.close != nil && s.done != nil
   modifies *
   ensures [returns-after-the-worker-exited] imp(tagged("closed:s.close"), tagged("recv:s.done"))
 
 func (s *ResettableKeystore) Close() (err error)
   props C14
+  requires s.close != nil && s.done != nil
   modifies *
   ensures [returns-after-the-worker-exited] imp(tagged("closed:s.close"), tagged("recv:s.done") && tagged("recv:s.altDsBusy"))
 
